@@ -22,6 +22,8 @@ WRAPPERS = {
     "lambda-let": "{ pkgs }:\nlet\n  v = 1;\nin\nSET\n",
     "let": "let\n  v = 1;\nin\nSET\n",
     "let2": "let\n  u = 1;\n  v = 0;\nin\nlet\n  v = 2;\n  w = 3;\nin\nSET\n",
+    "let2-notes": "let # outer note\n  u = 1;\n  v = 0;\nin\nlet # inner note\n  v = 2;\n  w = 3;\nin\nSET\n",
+    "let3": "let\n  u = 1;\nin\nlet # mid\n  v = 2;\nin\nlet\n  # about w\n  w = 3; # eol\nin\nSET\n",
     "with": "with pkgs;\nSET\n",
     "assert": "assert true;\nSET\n",
     "paren": "(SET)\n",
@@ -29,6 +31,8 @@ WRAPPERS = {
     "lambda-call": "{ pkgs }:\npkgs.mkDerivation SET\n",
     "header-comment": "# header\nSET\n",
     "lambda-with": "{ p }:\nwith p;\nSET\n",
+    # equal-looking bindings (same leaf name, value and trivia) under different parents / in attrpath and plain form
+    "let-twins": "let\n  x = 0;\n  lib.v = 1;\n  v = 1;\n  w.v = 1;\nin\nSET\n",
 }
 CONTENTS = {
     "flat": "{\n  a = 1;\n  b = \"x\";\n}",
@@ -42,8 +46,10 @@ CONTENTS = {
     "empty": "{ }",
     "deep": "{\n  a = 1;\n  m = {\n    n = {\n      x = 1;\n    };\n  };\n}",
     "attrpath-deep": "{\n  m.n.x = 1;\n  m.n.y = 2;\n  a = 1;\n}",
+    "twins": "{\n  z = 0;\n  a.enable = true;\n  b.enable = true;\n  enable = true;\n  m.x = 1;\n}",
+    "twins-inline": "{ a.enable = true; b.enable = true; c.enable = true; }",
 }
-PATHS = ["a", "b", "z", "m", "m.x", "m.z", "m.n.x", "n.p.q", '"foo-bar"', '"a.b"', '"new key"', "a.k", "m.x.k",
+PATHS = ["a.enable", "b.enable", "c.enable", "enable", "@lib.v", "@w.v", "a", "b", "z", "m", "m.x", "m.z", "m.n.x", "n.p.q", '"foo-bar"', '"a.b"', '"new key"', "a.k", "m.x.k",
          "@v", "@@u", "@@v", "@new", "@@@x", "@v.k", "", "a..b", ".a", '"a', "@", "@@", "a-b", '"if"']
 VALUES = ["2", '"s"', "[ 1 2 ]", "{ k = 1; }", "v", "{", "1 2", ""]
 
@@ -52,6 +58,10 @@ def documents(tier):
     for w, wt in WRAPPERS.items():
         for c, ct in CONTENTS.items():
             if tier == "quick" and w in ("lambda-with", "header-comment", "lambda-call") and c not in ("flat", "attrpath", "comments"):
+                continue
+            if w == "let-twins" and c not in ("flat", "twins", "attrpath"):
+                continue
+            if c.startswith("twins") and w not in ("bare", "let", "let-twins", "lambda-call", "rec"):
                 continue
             text = wt.replace("SET", ct)
             if w == "call" and c in ("inline", "empty"):
@@ -98,10 +108,13 @@ def value_text(v):
     return RD.norm_value(n)
 
 
-def is_attrpath_root(text, name):
-    """The top-level name is defined in attrpath form (`name.x = ...`) in the editable set."""
+def is_attrpath_root(text, name, layer=None):
+    """The name is defined in attrpath form (`name.x = ...`) in the editable set (or in let layer `layer`,
+    counted from the outermost)."""
     root = G.parse_cst(text)
-    s, _ = RD.unwrap_to_set(root)
+    s, lets = RD.unwrap_to_set(root)
+    if layer is not None:
+        s = lets[layer]
     for b in RD.bindings_of(s):
         if b.type == "binding":
             ap = b.child_by_field_name("attrpath")
@@ -179,11 +192,14 @@ def apply_model(text, op, path, value):
             layers = [{}]
         else:
             raise Refuse("missing scope layer")
-    layer = layers[len(layers) - depth]
+    li = len(layers) - depth
+    layer = layers[li]
+    _, _, old_layers = RD.read_document(text)
+    roots = {k for k in layer if li < len(old_layers) and is_attrpath_root(text, k, li)}
     if op == "set":
-        model_set(layer, names, val)
+        model_set(layer, names, val, attrpath_roots=roots)
     else:
-        model_rm(layer, names)
+        model_rm(layer, names, attrpath_roots=roots)
         if not layer:
             del layers[len(layers) - depth]
     return tree, layers
@@ -240,7 +256,7 @@ def allowed_region(text, depth, names, op):
     """Byte range of the input that the edit may change (C04): the addressed binding with the trivia
     between its neighbours; for a pure insertion the range is empty but may sit anywhere."""
     if depth:
-        return None  # scoped edits: handled by the layer comparison (C09)
+        return scoped_region(text, depth, names, op)
     ext = RD.find_binding_extent(text, names)
     if ext is None:
         return "insert"
@@ -252,6 +268,48 @@ def allowed_region(text, depth, names, op):
     lv = [l for l in G.leaves(G.parse_cst(text)) if l[0] != "comment"]
     prev_end = max([l[3] for l in lv if l[3] <= bs], default=0)
     next_start = min([l[2] for l in lv if l[2] >= be], default=len(b))
+    return (prev_end, next_start)
+
+
+def scoped_region(text, depth, names, op):
+    """Allowed change region of a scoped edit (C09: the other layers and the body keep their text)."""
+    root = G.parse_cst(text)
+    set_node, lets = RD.unwrap_to_set(root)
+    if set_node is None or depth > len(lets):
+        return "insert"  # a new innermost layer is a pure insertion
+    let = lets[len(lets) - depth]
+    b = text.encode("utf-8")
+
+    def search(container, nm):
+        for bn in RD.bindings_of(container):
+            if bn.type != "binding":
+                continue
+            ap = bn.child_by_field_name("attrpath")
+            comps = [RD.attr_name(c) for c in ap.children if c.type not in (".", "comment")]
+            val = bn.child_by_field_name("expression")
+            if comps == nm:
+                return bn, val
+            if len(comps) < len(nm) and comps == nm[: len(comps)] and val.type in ("attrset_expression", "rec_attrset_expression"):
+                r = search(val, nm[len(comps):])
+                if r:
+                    return r
+        return None
+
+    hit = search(let, names)
+    if hit is None:
+        return "insert"
+    bn, val = hit
+    if op == "set":
+        return (val.start_byte, val.end_byte)
+    n_bind = len([x for x in RD.bindings_of(let) if x.type in ("binding", "inherit", "inherit_from")])
+    lv = [l for l in G.leaves(root) if l[0] != "comment"]
+    if n_bind == 1 and len(names) == 1:
+        # removing the last binding removes that `let ... in` wrapper and only it
+        body = let.child_by_field_name("body")
+        prev_end = max([l[3] for l in lv if l[3] <= let.start_byte], default=0)
+        return (prev_end, body.start_byte)
+    prev_end = max([l[3] for l in lv if l[3] <= bn.start_byte], default=0)
+    next_start = min([l[2] for l in lv if l[2] >= bn.end_byte], default=len(b))
     return (prev_end, next_start)
 
 
@@ -334,10 +392,14 @@ def eval_case(prop, doc_id, text, op, path, value):
             return "edit-output-not-a-fixed-point"
         return None
 
-    if prop == "C04":
+    if prop in ("C04", "C09"):
         if out is None or refuse is not None:
             return None
         depth, names = parse_path(path)
+        if prop == "C09" and depth == 0:
+            return None
+        if prop == "C04" and depth > 0:
+            return None
         region = allowed_region(text, depth, names, op)
         if region is None:
             return None
@@ -355,9 +417,25 @@ def eval_case(prop, doc_id, text, op, path, value):
             return "insertion-changed-existing-text"
         return f"{op}-changed-text-outside-the-addressed-binding"
 
-    if prop == "C09":
-        depth, names = parse_path(path) if refuse is None or True else (0, [])
-        return None
+    return None
+
+
+def coarse_signature(sym, op, path, text, wrapper, content):
+    """Known root causes get one signature each (independent of document/path); anything else keeps the
+    specific (operation, path, content, wrapper) signature."""
+    try:
+        depth, names = parse_path(path)
+    except Refuse:
+        depth, names = 0, []
+    if sym == "output-has-syntax-error" and depth > 0 and wrapper in ("call", "lambda-call"):
+        return f"{sym}|scoped edit on a call-argument target emits `f let ... in {{...}}`|wrapper={wrapper}"
+    if sym == "output-defines-an-attribute-twice" and depth == 0 and len(names) == 1:
+        try:
+            _, tree, _ = RD.read_document(text)
+            if isinstance(tree.get(names[0]), tuple):
+                return f"{sym}|set of a name the set already inherits"
+        except Exception:
+            pass
     return None
 
 
@@ -401,7 +479,7 @@ def run_edits(prop, tier, seed, *, case_filter=None):
                 harness.append((doc_id, op, path, value, sym))
                 continue
             wrapper, content = doc_id.split("/")
-            sig = f"{sym}|{op} {path}|content={content}|wrapper={wrapper}"
+            sig = coarse_signature(sym, op, path, text, wrapper, content) or f"{sym}|{op} {path}|content={content}|wrapper={wrapper}"
             if sig not in by_sig:
                 by_sig[sig] = dict(check="edits", signature=sig, what=f"{prop} {sym}: {op} {path!r} {value!r} on {doc_id}",
                                    inputs={"text": text, "op": op, "path": path, "value": value}, has_input=True,
@@ -503,7 +581,8 @@ def run_scripts(prop, items, rule, *, exhaustive=True):
                 raise RuntimeError(f"harness error {sym} on {doc_id} {script}")
             k = int(sym.split(":")[0][4:])
             wrapper, content = doc_id.split("/")
-            sig = f"{sym.split(':', 1)[1]}|{script[k][0]} {script[k][1]}|content={content}|wrapper={wrapper}"
+            sig = coarse_signature(sym.split(":", 1)[1], script[k][0], script[k][1], text, wrapper, content) or \
+                f"{sym.split(':', 1)[1]}|{script[k][0]} {script[k][1]}|content={content}|wrapper={wrapper}"
             if sig not in by_sig:
                 by_sig[sig] = dict(check="scripts", signature=sig, what=f"{prop} {sym}: script {script} on {doc_id}",
                                    inputs={"text": text, "script": [list(s) for s in script]}, has_input=True,
